@@ -1,22 +1,23 @@
-(* C10 - the guard of NetCDFWrite.file_open and get_filenames() as they stood
-   before the repair C10-fix-1 do NOT satisfy C10_guard_sound /
-   C10_files_complete.  Each witness was replayed against the implementation
-   (harness/props/c10.py, corpus cases F10a/F10b/F10c). *)
-From CfdmV Require Import Common.Base C10.Model C10.Spec C10.Lemmas.
+(* C10 - superseded or seeded variants of the code do NOT satisfy the property
+   theorems.  Each witness was replayed against the implementation
+   (harness/props/c10.py corpus; seeded changes in the deepening pass). *)
+From CfdmV Require Import Common.Base C10.Model C10.Spec C10.Lemmas C10.Fs C10.FsLemmas C10.Ident.
 Open Scope Z_scope.
 
 Ltac splits := repeat match goal with |- _ /\ _ => split end.
 
+Definition fs1 : fsys := mkFS [(7, [1])] [([1], NFile 100 O)].
+Definition fs2 : fsys := mkFS [(7, [1]); (8, [2])] [([1], NFile 100 O); ([2], NLink [1])].
+
 (* F10a: g = Field(); g.set_data(f.data) with f read lazily from file 7;
-   write(g, 7) removes file 7 although g needs it. *)
+   write(g, 7) replaces file 7 although g needs it. *)
 Theorem C10_old_guard_transplant_refuted :
-  exists e0 e f fs fs' r,
-    Forall field_inv e0 /\ reach any_op e0 e /\ In f e /\ needs f 7 /\ wf_fs fs /\
-    write_model guard_old fs [f] 7 (mkW MW true FNone) 101 = (fs', r) /\
-    content fs' (real fs 7) <> content fs (real fs 7).
+  exists e0 e f fs',
+    Forall field_inv e0 /\ reach any_op e0 e /\ In f e /\ needs f 7 /\
+    write_model guard_old fs1 (mkQ [f] [] (tg fs1 7) None) (mkW MW true FNone) 101 = (fs', None) /\
+    content fs' (real fs1 7) <> content fs1 (real fs1 7).
 Proof.
-  exists [w_field], w_env, (mkF [] (Some (Plain (File [7]))) []),
-         (mkFS [(7, (100, O))] []), (mkFS [(7, (101, O))] []), None.
+  exists [w_field], w_env, (mkF [] (Some (Plain (File [7]))) []). eexists.
   splits.
   - constructor; [|constructor]. split; simpl; [apply incl_refl|constructor].
   - eapply reach_step with (e := step [w_field] ONewField) (o := OSetData 1 0 SelField);
@@ -24,26 +25,21 @@ Proof.
     eapply reach_step with (e := [w_field]) (o := ONewField); [constructor|reflexivity|reflexivity].
   - vm_compute. right. left. reflexivity.
   - exists [7]. split; [|left; reflexivity]. eapply fl_data; [reflexivity|constructor].
-  - intros l t. simpl. discriminate.
-  - reflexivity.
+  - vm_compute. reflexivity.
   - vm_compute. discriminate.
 Qed.
 
-(* F10b: f read through the symbolic link 8 -> 7 (so every recorded name is
-   8), then write(f, 7): the names differ, the file is the same. *)
+(* F10b: f read through the symbolic link 8 -> 7, then write(f, 7). *)
 Theorem C10_old_guard_symlink_refuted :
-  exists f fs fs' r,
-    field_inv f /\ needs f 8 /\ wf_fs fs /\
-    write_model guard_old fs [f] 7 (mkW MW true FNone) 101 = (fs', r) /\
-    content fs' (real fs 8) <> content fs (real fs 8).
+  exists f fs',
+    field_inv f /\ needs f 8 /\
+    write_model guard_old fs2 (mkQ [f] [] (tg fs2 7) None) (mkW MW true FNone) 101 = (fs', None) /\
+    content fs' (real fs2 8) <> content fs2 (real fs2 8).
 Proof.
-  exists (mkF [8] (Some (Plain (File [8]))) []),
-         (mkFS [(7, (100, O))] [(8, 7)]), (mkFS [(7, (101, O))] [(8, 7)]), None.
-  splits.
+  exists (mkF [8] (Some (Plain (File [8]))) []). eexists. splits.
   - split; simpl; [apply incl_refl|constructor].
   - exists [8]. split; [|left; reflexivity]. eapply fl_data; [reflexivity|constructor].
-  - intros l t. simpl. destruct (Z.eqb l 8); [|discriminate]. intro H. inversion H. reflexivity.
-  - reflexivity.
+  - vm_compute. reflexivity.
   - vm_compute. discriminate.
 Qed.
 
@@ -60,3 +56,63 @@ Qed.
 (* what it did return was needed *)
 Theorem C10_old_files_sound : forall f x, In x (field_files_old f) -> needs f x.
 Proof. exact files_old_sound. Qed.
+
+(* Seeded change 1: real paths compared only when the target or the consulted
+   name is itself a symbolic link.  Read data/x.nc, write alias/x.nc with
+   alias -> data: the source file is replaced. *)
+Theorem C10_final_link_only_guard_refuted :
+  exists fs' r,
+    tree_wf (nodes ex_fs) /\ needs (ex_field_n 10) 10 /\ is_regular (nodes ex_fs) (real ex_fs 10) = true /\
+    write_model guard_final_link_only ex_fs (ex_q 11) (mkW MW true FNone) 1000 = (fs', r) /\
+    content fs' (real ex_fs 10) <> content ex_fs (real ex_fs 10).
+Proof.
+  do 2 eexists. splits.
+  - exact ex_store_wf.
+  - apply files_complete. vm_compute. left. reflexivity.
+  - reflexivity.
+  - vm_compute. reflexivity.
+  - vm_compute. discriminate.
+Qed.
+
+(* Before fix2-2: the external file was checked against the derived external
+   fields only; a construct holding transplanted lazy data of x.nc and a new
+   external cell measure, written with external=alias/x.nc, loses x.nc. *)
+Theorem C10_external_unchecked_refuted :
+  exists fs' r,
+    In ex_g [ex_g] /\ needs ex_g 10 /\
+    write_gen false true guard ex_fs (mkQ [ex_g] [ex_ef] (tg ex_fs 14) (Some (tg ex_fs 11)))
+              (mkW MW true FNone) 1000 = (fs', r) /\
+    content fs' (real ex_fs 10) <> content ex_fs (real ex_fs 10).
+Proof.
+  do 2 eexists. splits.
+  - left. reflexivity.
+  - exists [10]. split; [|left; reflexivity]. eapply fl_data; [reflexivity|constructor].
+  - vm_compute. reflexivity.
+  - vm_compute. discriminate.
+Qed.
+
+(* Seeded change 2: overwrite no longer forwarded to the write of the
+   external file: with overwrite disabled an existing external file is replaced. *)
+Theorem C10_overwrite_not_forwarded_refuted :
+  exists fs' r K,
+    is_regular (nodes ex_fs) K = true /\
+    write_gen true false guard ex_fs (mkQ [ex_h] [ex_ef] (tg ex_fs 14) (Some (tg ex_fs 15)))
+              (mkW MW false FNone) 1000 = (fs', r) /\
+    content fs' K <> content ex_fs K.
+Proof.
+  exists (fst (write_gen true false guard ex_fs (mkQ [ex_h] [ex_ef] (tg ex_fs 14) (Some (tg ex_fs 15)))
+              (mkW MW false FNone) 1000)).
+  eexists. exists [1; 2; 8]. splits.
+  - reflexivity.
+  - vm_compute. reflexivity.
+  - vm_compute. discriminate.
+Qed.
+
+(* Seeded change 3: the copy deferred until after conform_geometry_variables. *)
+Theorem C10_deferred_copy_refuted :
+  exists h', write_all (writer_prog_deferred_copy true []) ex_heap 2%nat [ex_obj] = (h', 4%nat, false)
+             /\ hget h' 1%nat <> hget ex_heap 1%nat.
+Proof. exact deferred_copy_refuted. Qed.
+
+Theorem C10_deferred_copy_not_copy_first : copy_first (writer_prog_deferred_copy true []) = false.
+Proof. reflexivity. Qed.
